@@ -21,12 +21,47 @@ import (
 	"golang.org/x/telemetry/internal/verifshim/vrep"
 )
 
+// zzvSpanNow returns the span a process opening its counter file right now gets: a fresh
+// process, the real rotate1 (the only entry point the property speaks of), span read from
+// the created file's metadata. The file is removed again.
+func zzvSpanNow() (begin, end time.Time, err error) {
+	f := &file{buildInfo: zzvBuildInfo()}
+	exp := f.rotate1()
+	m := f.current.Load()
+	if m == nil {
+		if f.err != nil {
+			return time.Time{}, time.Time{}, f.err
+		}
+		return time.Time{}, time.Time{}, fmt.Errorf("no file")
+	}
+	name := m.f.Name()
+	data, rerr := os.ReadFile(name)
+	m.close()
+	os.Remove(name)
+	if rerr != nil {
+		return time.Time{}, time.Time{}, rerr
+	}
+	cf, derr := ref.DecodeCounterFile(data)
+	if derr != nil {
+		return time.Time{}, time.Time{}, derr
+	}
+	begin, e1 := time.Parse(time.RFC3339, cf.Meta["TimeBegin"])
+	end, e2 := time.Parse(time.RFC3339, cf.Meta["TimeEnd"])
+	if e1 != nil || e2 != nil {
+		return time.Time{}, time.Time{}, fmt.Errorf("metadata span unparsable: %v %v", e1, e2)
+	}
+	if !exp.Equal(end) {
+		return begin, end, fmt.Errorf("rotate1 reports expiry %s, metadata says %s", exp.Format(time.RFC3339), end.Format(time.RFC3339))
+	}
+	return begin, end, nil
+}
+
 func TestVerifC09(t *testing.T) {
 	p := vrep.Env()
 	res := vrep.New("C09", p)
 	defer res.Guard()
 	base, _ := vrep.Scratch("c09")
-	res.Rule = "E3: (a) counterSpan for every day of 1990..2049 (quick: 2022..2027) x 7 week-end settings x {00:00, 00:00+1ns, 12:00, 23:59:59.999999999}; (b) 14 malformed/odd settings x every day of 2023-12-30..2024-03-02; (c) real open, naming, metadata, Add, rotation exactly at the recorded end and 1ns before, on every day of 2023-12-01..2025-03-31 (quick: every day of 5 months) x 7 settings; classes = (month, weekday distance) and setting classes"
+	res.Rule = "E3: (a) the span of a freshly opened file (real rotate1, metadata of the created file) for every day of 1990..2049 (quick: 2022..2027) x 7 week-end settings x {00:00, 00:00+1ns, 12:00, 23:59:59.999999999}; (b) 14 malformed/odd settings x every day of 2023-12-30..2024-03-02; (c) real open, naming, metadata, Add, rotation exactly at the recorded end and 1ns before, on every day of 2023-12-01..2025-03-31 (quick: every day of 5 months) x 7 settings; classes = (month, weekday distance) and setting classes"
 	vos.Poison = false
 	w := zzvNewWorld(base, "")
 	defer w.teardown()
@@ -48,7 +83,7 @@ func TestVerifC09(t *testing.T) {
 			for _, tod := range tods {
 				now := day.Add(tod)
 				w.now = now
-				b, e, err := counterSpan()
+				b, e, err := zzvSpanNow()
 				res.Evaluations++
 				rb, re := ref.WeekSpan(now, time.Weekday(wd))
 				if err != nil {
@@ -81,7 +116,7 @@ func TestVerifC09(t *testing.T) {
 							res.Violate("span-panic", fmt.Sprintf("counterSpan panics with setting %q: %v", setting, r), nil)
 						}
 					}()
-					b, e, err = counterSpan()
+					b, e, err = zzvSpanNow()
 				}()
 				res.Evaluations++
 				if err != nil {
@@ -161,6 +196,9 @@ func zzvC09File(res *vrep.Result, base string, day time.Time, wd int) {
 	// before the recorded end: the property only speaks of the rotation at the end).
 	w.now = re.Add(-1)
 	c.Add(2)
+	// The user changes the week-end day while the process runs: the next span follows the new setting.
+	wd2 := (wd + 3) % 7
+	os.WriteFile(filepath.Join(telemetry.Default.LocalDir(), "weekends"), []byte(fmt.Sprintf("%d\n", wd2)), 0o666)
 	// Exactly at the end: the next span's file.
 	w.now = re
 	f.rotate1()
@@ -185,7 +223,7 @@ func zzvC09File(res *vrep.Result, base string, day time.Time, wd int) {
 	if cfo.Values["a"] != 3 || cfn.Values["a"] != 4 {
 		fail("increments-in-wrong-file", "old file holds %d (want 3), new file holds %d (want 4)", cfo.Values["a"], cfn.Values["a"])
 	}
-	_, re2 := ref.WeekSpan(re, time.Weekday(wd))
+	_, re2 := ref.WeekSpan(re, time.Weekday(wd2))
 	if cfn.Meta["TimeBegin"] != re.Format(time.RFC3339) || cfn.Meta["TimeEnd"] != re2.Format(time.RFC3339) {
 		fail("meta-span-differs", "next file TimeBegin=%s TimeEnd=%s, want %s / %s", cfn.Meta["TimeBegin"], cfn.Meta["TimeEnd"], re.Format(time.RFC3339), re2.Format(time.RFC3339))
 	}
